@@ -29,10 +29,16 @@ verus! {
 //@  raw
 //@  |     spec fn v_span(&self) -> SourceSpan;
 //@  |     spec fn v_layout_ahead(&self) -> Option<&'i I>;
+//@  |     spec fn v_position(&self) -> Position;
+//@  |     spec fn v_state(&self) -> S;
 //@  fn span ret=r
 //@  |         ensures r == self.v_span(),
 //@  fn layout_ahead ret=r
 //@  |         ensures r == self.v_layout_ahead(),
+//@  fn position ret=r
+//@  |         ensures r == self.v_position(),
+//@  fn state ret=r
+//@  |         ensures r == self.v_state(),
 //@end
 
 //@include builder_traits.inc
